@@ -1533,13 +1533,23 @@ func (vars algorithmExpansion) Call() (ExpandedValue, error) {
 						},
 						PropertySourceOffsets: vars.activePropertySourceOffsets,
 					}
-				} else {
-					// [dpb] not supported in 1.0, apparently; fixes #ter24
+				}
 
-					if vars.activeContext._processor.processingMode == ProcessingMode_JSON_LD_1_0 {
-						return jsonldtype.Error{
-							Code: jsonldtype.InvalidSetOrListObject,
-							Err:  fmt.Errorf("invalid structure (processing mode %s): list of lists", vars.activeContext._processor.processingMode),
+				// [dpb] not supported in 1.0, apparently; fixes #ter24
+
+				if vars.activeContext._processor.processingMode == ProcessingMode_JSON_LD_1_0 {
+					if listObject, ok := expandedValue.(*ExpandedObject); ok {
+						if listArray, ok := listObject.Members["@list"].(*ExpandedArray); ok {
+							for _, item := range listArray.Values {
+								if itemObject, ok := item.(*ExpandedObject); ok {
+									if _, hasAtList := itemObject.Members["@list"]; hasAtList {
+										return jsonldtype.Error{
+											Code: jsonldtype.InvalidSetOrListObject,
+											Err:  fmt.Errorf("invalid structure (processing mode %s): list of lists", vars.activeContext._processor.processingMode),
+										}
+									}
+								}
+							}
 						}
 					}
 				}
